@@ -197,3 +197,73 @@ def loaders(ctx, rule="R16.codec-alone"):
             ctx.ob(rule, key, P.where(sel[0]),
                    "%s selects raw bytes vs decompress_page by `codec == UNCOMPRESSED` alone" % fn.name, exact, src(cond)[:80])
     ctx.floor("decompress_page call sites", n, 4)
+
+
+PLAIN_TYPES = {"CARQUET_PHYSICAL_BOOLEAN": "boolean", "CARQUET_PHYSICAL_INT32": "int32",
+               "CARQUET_PHYSICAL_INT64": "int64", "CARQUET_PHYSICAL_INT96": "int96",
+               "CARQUET_PHYSICAL_FLOAT": "float", "CARQUET_PHYSICAL_DOUBLE": "double",
+               "CARQUET_PHYSICAL_BYTE_ARRAY": "byte_array",
+               "CARQUET_PHYSICAL_FIXED_LEN_BYTE_ARRAY": "fixed_byte_array"}
+
+
+def plain_tables(ctx):
+    """The PLAIN type -> codec tables of the page writer and of carquet_decode_plain, by execution."""
+    from . import sem
+    from ..extract import AnalysisBroken
+    P = ctx.P
+    PW = "src/writer/page_writer.c"
+    PL = "src/encoding/plain.c"
+    TYPES = PLAIN_TYPES
+    av = P.fn("carquet_page_writer_add_values", PW)
+    dp = P.fn("carquet_decode_plain", PL)
+    # both dispatchers are executed once per physical type value (and for values outside the enum) with
+    # every carquet_encode_plain_* / carquet_decode_plain_* hooked: the codec reached per type is the
+    # table; switch, if-chain or an extracted helper make no difference
+    pt = P.enum("carquet_physical_type")
+    enc_names = sorted(f for f in P.by_name if f.startswith("carquet_encode_plain_"))
+    dec_names = sorted(f for f in P.by_name if f.startswith("carquet_decode_plain_"))
+    wo1 = sem.field_offsets(P, "carquet_page_writer")
+
+    def wtable(tv):
+        hooks = {n_: (lambda ev, a, it, n_=n_: ev.append(n_) or 0) for n_ in enc_names}
+        heap0 = {("pw", wo1["type"]): tv, ("pw", wo1["max_def_level"]): 0, ("pw", wo1["max_rep_level"]): 0,
+                 ("pw", wo1["type_length"]): 4, ("pw", wo1["num_values"]): 0, ("pw", wo1["num_nulls"]): 0,
+                 ("pw", wo1["has_min_max"]): 0, ("pw", wo1["write_statistics"]): 0}
+        return sem.run(P, av, [sem.Ptr("pw", 0, 1), sem.Ptr("vals", 0, 1), 0, 0, 0], heap0=heap0, hooks=hooks,
+                       single=True, max_forks=64)
+
+    def rtable(tv):
+        hooks = {n_: (lambda ev, a, it, n_=n_: ev.append(n_) or 0) for n_ in dec_names}
+        return sem.run(P, dp, [sem.Ptr("in", 0, 1), 64, tv, 4, sem.Ptr("out", 0, 1), 0], hooks=hooks,
+                       single=True, max_forks=64)
+    try:
+        for ty, stem in TYPES.items():
+            if ty not in pt:
+                raise AnalysisBroken("physical type %s vanished" % ty)
+            rret, rev, _h = rtable(pt[ty])
+            if ty == "CARQUET_PHYSICAL_INT96":
+                # INT96 is readable but not writable through the page writer
+                ctx.ob("R5.agree", "codec-table|%s|%s" % (PL, ty), P.where(dp.body),
+                       "INT96 pages are decoded by carquet_decode_plain_int96", rev == ["carquet_decode_plain_int96"], str(rev))
+                continue
+            wret, wev, _h = wtable(pt[ty])
+            ctx.ob("R5.agree", "codec-table|%s/%s|%s" % (PW, PL, ty), P.where(av.body),
+                   "%s is written by carquet_encode_plain_%s and read by carquet_decode_plain_%s (abstract execution of both dispatchers)"
+                   % (ty, stem, stem),
+                   wev == ["carquet_encode_plain_" + stem] and rev == ["carquet_decode_plain_" + stem] and wret == 0,
+                   "writer %s (returns %s) / reader %s" % (wev, wret, rev))
+        unknown = [v for v in (-1, max(pt.values()) + 1, 99) if v not in pt.values()]
+        for nm, tab, fn in (("writer", wtable, av), ("reader", rtable, dp)):
+            bad = None
+            for v in unknown:
+                ret, ev, _h = tab(v)
+                refused = isinstance(ret, int) and ret != 0 and not ev
+                if not refused and bad is None:
+                    bad = "type value %d: codecs %s, returns %s" % (v, ev, ret)
+            ctx.ob("R5.agree", "codec-default|%s" % nm, P.where(fn.body),
+                   "unknown physical types are refused by the %s (no codec runs, a non-zero status / negative count is returned)" % nm,
+                   bad is None, bad or "")
+    except sem.Inconclusive as ex:
+        ctx.inconclusive("R5.agree", "codec-table|%s/%s" % (PW, PL), P.where(av.body),
+                         "abstract execution of the PLAIN dispatchers", str(ex))
+
